@@ -143,6 +143,35 @@ def search(seed, tier, hints):
 
 
 def replay(payload):
-    common.say("replay input:", payload.get("input"))
-    common.say("re-run the check with the recorded seed to reproduce")
-    return 0
+    """regenerates the ecc file of the recorded tree and corrects the undamaged tree (same single-file / relocation choices); judges
+    again; exit 1 if the property still fails"""
+    inp = payload.get("input", {})
+    try:
+        P = eu.Params(**inp["params"])
+        tree = {k: bytes.fromhex(v) for k, v in inp["tree"].items()}
+    except (KeyError, ValueError, TypeError, AttributeError):
+        common.say("replay file is not self-contained: re-run the check with the recorded seed")
+        return 0
+    d = os.path.join(common.scratch(), "c03replay")
+    shutil.rmtree(d, ignore_errors=True)
+    root, ecc = os.path.join(d, "root"), os.path.join(d, "ecc.txt")
+    eu.write_tree(root, tree)
+    single = bool(inp.get("single_file_input"))
+    first = sorted(tree)[0]
+    src = os.path.join(root, *first.split("/")) if single else root
+    g = eu.generate(P, src, ecc)
+    if g != "0":
+        common.say("FAILS: generation failed: %s" % g)
+        return 1
+    if inp.get("relocated"):
+        root2 = os.path.join(d, "moved elsewhere", "x")
+        shutil.copytree(root, root2)
+        src = os.path.join(root2, *first.split("/")) if single else root2
+    rc, stats, out, _ = eu.correct(P, src, ecc, os.path.join(d, "out"))
+    want = (len(tree), 0, 0, 0, 0, 0)
+    bad = None
+    if rc != "0" or stats != want or out:
+        bad = "correction of an undamaged tree: exit %s, stats %s, written %s (required: exit 0, %s, nothing)" % (rc, stats, sorted(out), want)
+    common.say("params:", P.describe())
+    common.say("FAILS: %s" % bad if bad else "the property holds on this input now")
+    return 1 if bad else 0
